@@ -368,6 +368,58 @@ def isdist_check(case):
     return ok(True, obs=bool(got), expected=expected)
 
 
+# ------------------------------------------------------------------------------------------------ C10.history
+# Same exploration as C11.history (added after seeded change C11-6: solver options of one call leaked into later calls).
+HIST_EVENTS = ["min_error_dual", "min_error_primal_ldl", "unambiguous_dual", "is_distinguishable_orthogonal", "is_distinguishable_pair", "loose_options"]
+
+
+def history_cases(tier, seed):
+    yield {"ens": ["e0", "+", "+i"], "prior": "ramp", "depth": 2}
+    yield {"ens": ["e0", "g0"], "prior": "g0", "depth": 2 if tier == "quick" else 3}
+
+
+def history_check(case):
+    from mc.history import explore
+    from toqito.state_opt import state_distinguishability
+    from toqito.state_props import is_distinguishable
+
+    kets = [catalog.ket(2, k).reshape(-1, 1) for k in case["ens"]]
+    probs = [float(x) for x in en.weights(len(kets), case["prior"])]
+    orth = [catalog.ket(2, "+i").reshape(-1, 1), catalog.ket(2, "-i").reshape(-1, 1)]
+    pair = [catalog.ket(2, "e0").reshape(-1, 1), catalog.ket(2, "pi8ph").reshape(-1, 1)]
+
+    def apply(_, ev):
+        if ev == "loose_options":
+            v, exc = call(state_distinguishability, [k.copy() for k in kets], list(probs), primal_dual="dual", abs_ipm_opt_tol=1e-2,
+                          rel_ipm_opt_tol=1e-2, abs_prim_fsb_tol=1e-2, rel_prim_fsb_tol=1e-2, abs_dual_fsb_tol=1e-2, rel_dual_fsb_tol=1e-2)
+            return "done" if exc is None else "EXC:" + type(exc).__name__
+        if ev == "min_error_dual":
+            v, exc = call(state_distinguishability, [k.copy() for k in kets], list(probs), primal_dual="dual")
+        elif ev == "min_error_primal_ldl":
+            v, exc = call(state_distinguishability, [k.copy() for k in kets], list(probs), primal_dual="primal", cvxopt_kktsolver="ldl")
+        elif ev == "unambiguous_dual":
+            v, exc = call(state_distinguishability, [k.copy() for k in kets[:2]], [0.5, 0.5], strategy="unambiguous", primal_dual="dual")
+        else:
+            v, exc = call(is_distinguishable, [k.copy() for k in (orth if ev.endswith("orthogonal") else pair)], [0.5, 0.5])
+            return ("EXC:" + type(exc).__name__) if exc is not None else bool(v)
+        if exc is not None:
+            return "EXC:" + type(exc).__name__
+        return round(float(np.real(v[0] if isinstance(v, tuple) else v)), 4)
+
+    def same(a, b, ev):
+        if ev == "loose_options":
+            return True
+        if isinstance(a, (str, bool)) or isinstance(b, (str, bool)):
+            return a == b
+        return abs(a - b) <= 2e-4
+
+    stats, bad = explore(lambda: None, HIST_EVENTS, apply, lambda o: "stateless", lambda o, h: None, same, case["depth"])
+    for b in bad:
+        return viol(f"discrimination call history: {b['kind']} after {b.get('history')}: {b.get('after_history', '')} vs {b.get('from_initial', '')}",
+                    site="discrimination_history:" + b["kind"], observed=repr(b)[:300])
+    return ok(True, obs=[stats["transitions"], stats["histories"]], states=stats["states"], transitions=stats["transitions"], histories=stats["histories"])
+
+
 CLAUSES = [
     Clause("C10.min_error", min_error_cases, min_error_check, tol="ipm(1e-4); certificates 1e-3", chunk=6, weight=0.15, probe=4,
            doc="min-error value in certified bracket, Helstrom / orthogonal / max-prior / PGM, primal = dual, returned operators are a POVM "
@@ -379,4 +431,6 @@ CLAUSES = [
            doc="value unchanged under every catalogue unitary and every relabelling; operators follow the relabelling"),
     Clause("C10.is_distinguishable", isdist_cases, isdist_check, tol="exact on margin >= 1e-3", chunk=10, weight=0.06, probe=4,
            doc="is_distinguishable True for orthogonal sets, False when the certified optimum <= 1 - 1e-3"),
+    Clause("C10.history", history_cases, history_check, tol="ipm(2e-4)", chunk=1, weight=10.0, probe=1,
+           doc="BFS over call histories (incl. a call with loose solver options): every later value equals the value from the initial state"),
 ]
